@@ -133,6 +133,30 @@ func (e *Engine) globalHeap(g *ssa.Global) []string {
 	return []string{"G|" + g.Pkg.Pkg.Path() + "." + g.Name() + "|" + string(gs)}
 }
 
+// writeRoot: the allocation a Store/MapUpdate writes into, when it is an allocation of this function
+func (e *Engine) writeRoot(ins ssa.Instruction) ssa.Value {
+	var addr ssa.Value
+	switch x := ins.(type) {
+	case *ssa.Store:
+		addr = x.Addr
+	case *ssa.MapUpdate:
+		return x.Map
+	default:
+		return nil
+	}
+	for {
+		switch a := addr.(type) {
+		case *ssa.FieldAddr:
+			addr = a.X
+			continue
+		case *ssa.IndexAddr:
+			addr = a.X
+			continue
+		}
+		return addr
+	}
+}
+
 // instrMod: heaps written directly by an instruction (not through callees)
 func (e *Engine) instrMod(ins ssa.Instruction) (exist []string, fresh []string) {
 	m := e.Model
@@ -207,6 +231,22 @@ func (e *Engine) callMod(f *ssa.Function, cc *ssa.CallCommon) (exist []string, f
 		callee = v.Fn.(*ssa.Function)
 	}
 	if callee == nil {
+		// a value taken out of a rule table: union over the table's functions
+		if ti := e.tableOfValue(cc.Value); ti != nil && !ti.Open {
+			for _, r := range ti.Rows {
+				if r.Fn == nil {
+					return []string{"*"}, fresh
+				}
+				mi := e.modInfo(r.Fn)
+				for n := range mi.Exist {
+					exist = append(exist, n)
+				}
+				for n := range mi.Fresh {
+					fresh = append(fresh, n)
+				}
+			}
+			return
+		}
 		return []string{"*"}, fresh
 	}
 	if e.inRepo(callee) {
@@ -220,6 +260,10 @@ func (e *Engine) callMod(f *ssa.Function, cc *ssa.CallCommon) (exist []string, f
 		return
 	}
 	ex := e.externMod(callee, cc)
+	if n := externName(callee); n == "strings.Split" || n == "strings.SplitN" {
+		// allocates a fresh []string only
+		return nil, append(fresh, ex...)
+	}
 	return ex, fresh
 }
 
